@@ -78,6 +78,122 @@ theorem removeRegion_refines {s : RegionsInfo} {r : Region} (h : Inv s) (hr : ge
     rw [hfacc, hftree, hrem.1, hU, abs_filter_ne h hxU, hxid]
     rfl
 
+/-! ### RemoveRegion with an older RegionInfo of the same id -/
+
+/-- regionTree.remove only reads the start key, the id and the size of its argument -/
+theorem Tree.remove_congr (acc : Acc) (t : Tree) {g g' : Region} (h1 : g.startKey = g'.startKey)
+    (h2 : g.id = g'.id) (h3 : g.size = g'.size) : t.remove acc g = t.remove acc g' := by
+  unfold Tree.remove; rw [h1, h2, h3]
+
+theorem famRemove_congr (acc : Acc) (m : List (Nat × Tree)) (st : Nat) {g g' : Region}
+    (h1 : g.startKey = g'.startKey) (h2 : g.id = g'.id) (h3 : g.size = g'.size) :
+    famRemove acc m st g = famRemove acc m st g' := by
+  unfold famRemove
+  cases mapGet m st with
+  | none => rfl
+  | some t => simp only [Tree.remove_congr acc t h1 h2 h3]
+
+/-- Lemma A for an object `g` that is not the cached one but has its id, start key and size, and whose peers
+    sit on (at least) the stores where the cached region is indexed -/
+theorem subsOk_removeSub_stale {s : RegionsInfo} {U : List Nat} {y : Nat} {g : Region} (hU : Ordered s.acc U)
+    (hinj : IdInj s.acc U) (hy : y ∈ U)
+    (h1 : g.startKey = (s.acc y).startKey) (h2 : g.id = (s.acc y).id) (h3 : g.size = (s.acc y).size)
+    (hnd : (g.peers.map (·.store)).Nodup)
+    (hcover : ∀ role st, OnStore role st (s.acc y) → st ∈ g.peers.map (·.store)) (h : SubsOk s U) :
+    SubsOk (removeRegionFromSubTree s g) (U.filter (fun a => decide (a ≠ y))) := by
+  intro role st
+  unfold removeRegionFromSubTree
+  have hfold : ∀ (stores : List Nat) (m : List (Nat × Tree)),
+      stores.foldl (fun m st' => famRemove s.acc m st' g) m =
+      stores.foldl (fun m st' => famRemove s.acc m st' (s.acc y)) m := by
+    intro stores
+    induction stores with
+    | nil => intro m; rfl
+    | cons a l ih => intro m; simp only [List.foldl_cons, famRemove_congr s.acc m a h1 h2 h3, ih]
+  rw [sub_eq, mapFams_fam, mapFams_acc, hfold, subOf_foldl_famRemove _ _ _ hnd, ← sub_eq]
+  have h0 := h role st
+  unfold TreeIs
+  rw [filter_ne_filter]
+  split
+  · exact Tree.remove_is hU hinj hy h0
+  · next hst =>
+    apply h0.congr
+    intro a ha
+    by_cases e : a = y
+    · subst e
+      have : ¬ OnStore role st (s.acc a) := fun ho => hst (hcover role st ho)
+      simp [this]
+    · simp [e]
+
+/-- **RemoveRegion with an older RegionInfo of a cached id** (the DropCacheRegion race: a heartbeat that moves the
+    leader / changes roles or pending peers lands between GetRegion and RemoveRegion): as long as the old object
+    has the start key and size of the cached region and a peer on every store where the cached region is indexed,
+    the id is removed from the map, the main tree and every sub-tree, and all counters stay exact. -/
+theorem removeRegion_stale_refines {s : RegionsInfo} {g c : Region} (h : Inv s)
+    (hc : getRegion s g.id = some c) (h1 : g.startKey = c.startKey) (h3 : g.size = c.size)
+    (hnd : (g.peers.map (·.store)).Nodup)
+    (hcover : ∀ role st, OnStore role st c → st ∈ g.peers.map (·.store)) :
+    Inv (removeRegion s g) ∧ abs (removeRegion s g) = C07.remove (abs s) g.id := by
+  obtain ⟨x, hsome, hxc⟩ := getRegion_some hc
+  obtain ⟨hxU, hxid⟩ := h.map.bwd _ _ hsome
+  subst hxc
+  -- the tree part and the map part are those of removing the cached object
+  have htree : s.tree.remove s.acc g = s.tree.remove s.acc (s.acc x) :=
+    Tree.remove_congr s.acc s.tree h1 hxid.symm h3
+  obtain ⟨sA, hsA⟩ : ∃ sA : RegionsInfo,
+      sA = { s with tree := s.tree.remove s.acc (s.acc x), regions := mapDel s.regions g.id } := ⟨_, rfl⟩
+  have hrm : removeRegion s g = removeRegionFromSubTree sA g := by
+    unfold removeRegion; simp only; rw [htree, hsA]
+  have hsAacc : sA.acc = s.acc := by rw [hsA]; rfl
+  have hrem := (Tree.remove_is h.ord h.map.inj hxU (treeIs_main h)).congr (Q := fun a => decide (a ≠ x))
+    (by intro a _; simp)
+  obtain ⟨U, hU⟩ : ∃ U, U = s.tree.items.filter (fun a => decide (a ≠ x)) := ⟨_, rfl⟩
+  unfold TreeIs at hrem
+  rw [← hU] at hrem
+  have hAtree : sA.tree = s.tree.remove s.acc (s.acc x) := by rw [hsA]
+  have hsubsA : SubsOk sA s.tree.items :=
+    subsOk_congr (s := s) (fun role => by rw [hsA]; cases role <;> rfl) (fun _ _ => by rw [hsAacc]) h.subs
+  have hA := subsOk_removeSub_stale (s := sA) (g := g) (by rw [hsAacc]; exact h.ord) (by rw [hsAacc]; exact h.map.inj)
+    hxU (by rw [hsAacc]; exact h1) (by rw [hsAacc]; exact hxid.symm) (by rw [hsAacc]; exact h3) hnd
+    (by rw [hsAacc]; exact hcover) hsubsA
+  rw [← hrm, ← hU] at hA
+  have hftree : (removeRegion s g).tree = s.tree.remove s.acc (s.acc x) := by
+    rw [hrm]; unfold removeRegionFromSubTree; rw [mapFams_tree, hAtree]
+  have hfacc : (removeRegion s g).acc = s.acc := by
+    rw [hrm]; unfold removeRegionFromSubTree; rw [mapFams_acc, hsAacc]
+  have hfreg : (removeRegion s g).regions = mapDel s.regions g.id := by
+    rw [hrm]; unfold removeRegionFromSubTree; rw [mapFams_regions, hsA]
+  have hfheap : (removeRegion s g).heap = s.heap := by
+    rw [hrm]; unfold removeRegionFromSubTree; rw [mapFams_heap, hsA]
+  have hfnil : (removeRegion s g).nilDeref = false := by
+    rw [hrm]; unfold removeRegionFromSubTree; rw [mapFams_nil, hsA]; exact h.noNil
+  have hUmem : ∀ a, a ∈ U ↔ a ∈ s.tree.items ∧ a ≠ x := by
+    intro a; rw [hU]; simp [List.mem_filter]
+  have hidne : ∀ a ∈ U, (s.acc a).id ≠ g.id := by
+    intro a ha e
+    obtain ⟨g1, g2⟩ := (hUmem a).1 ha
+    exact g2 (h.map.inj a g1 x hxU (by rw [e, hxid]))
+  refine ⟨⟨hfnil, ?_, ?_, ?_, ⟨?_, ?_, ?_, ?_⟩, ?_⟩, ?_⟩
+  · rw [hfacc, hftree, hrem.1, hU]; exact h.ord.filter _ _
+  · rw [hfacc, hftree, hrem.1]; intro a ha; exact h.wf a ((hUmem a).1 ha).1
+  · rw [hfacc, hftree, hrem.1]; exact hrem.2
+  · rw [hfreg, mapDel_keys]; exact List.Nodup.sublist List.filter_sublist h.map.keys
+  · rw [hfacc, hftree, hrem.1, hfreg]; intro a ha
+    rw [mapGet_mapDel]; simp [hidne a ha, h.map.fwd a ((hUmem a).1 ha).1]
+  · rw [hfacc, hftree, hrem.1, hfreg]; intro id a hg
+    rw [mapGet_mapDel] at hg
+    split at hg
+    · cases hg
+    · next hne =>
+      obtain ⟨g1, g2⟩ := h.map.bwd id a hg
+      refine ⟨(hUmem a).2 ⟨g1, ?_⟩, g2⟩
+      intro e; subst e; exact hne (by rw [← g2, hxid])
+  · rw [hftree, hrem.1, hfheap]; intro a ha; exact h.map.bound a ((hUmem a).1 ha).1
+  · rw [hftree, hrem.1]; exact hA
+  · unfold abs C07.remove
+    rw [hfacc, hftree, hrem.1, hU, abs_filter_ne h hxU, hxid]
+    rfl
+
 /-! ### queries -/
 
 theorem find?_eq_some_of_unique {β : Type} {l : List β} {p : β → Bool} {b : β} (hb : b ∈ l) (hp : p b = true)
